@@ -86,6 +86,13 @@ func decoy(c Case, r spec.Req) {
 	if q, err := lib.NewRequest(d, c.RTU); err == nil && !lib.IsNil(q) {
 		_ = q.Bytes()
 	}
+	if c.RTU {
+		// and frames that are REFUSED for their CRC, shorter than any request, go through the CRC-verifying dispatcher
+		// first: whatever a refusal leaves behind must not count against the next frame
+		p := lib.ByName("ParseRTURequestWithCRC").F
+		_, _ = p([]byte{r.Unit, 3, 0xDE, 0xAD})
+		_, _ = p([]byte{r.Unit ^ 1, 6, 0, 1, 0xBE, 0xEF})
+	}
 }
 
 func eval(c Case, res *ev.Result, lc *local) {
